@@ -22,7 +22,7 @@ RULE = ('grammar class: 2-6 ledger processes with coincident interval ends (dyad
         'non-trivial = grammar: >=2 instants with >=2 processes invoked together; permutation: >=2 processes and '
         '>=3 rows and at least one permutation that differs from the listed order; distinct = distinct case spec')
 PLAN = {'quick': {'n': 6000, 'min_cases': 500}, 'thorough': {'n': 80000, 'min_cases': 8000}}
-REQUIRED_ORACLES = ['no_apply_between_invocations', 'same_snapshot_per_instant', 'same_snapshot_per_layer', 'snapshot_is_committed_state',
+REQUIRED_ORACLES = ['layer_same_snapshot', 'no_apply_between_invocations', 'same_snapshot_per_instant', 'same_snapshot_per_layer', 'snapshot_is_committed_state',
                     'permutation_invariant']
 ANCHORS = ['vivarium.core.engine:Engine.run_for', 'vivarium.core.engine:Engine.run_steps',
            'vivarium.core.engine:_StepGraph.get_execution_layers', 'vivarium.core.engine:Engine._process_state',
@@ -32,6 +32,11 @@ ASSUMPTIONS = ['permutation invariance is asserted only for commuting updates (a
 
 
 def gen(r, tier, i):
+    if r.random() < 0.08:
+        # steps of one layer inside compartments that are generated, divided and moved at run time: C10's
+        # structural workload, judged here on "the steps of one layer are shown one state" only
+        from vmon.checks import c10
+        return {'class': 'structural', 'c10': c10.gen(r, tier, i)}
     if r.random() < 0.5:
         n = r.randint(2, 6)
         procs = [{'pid': pid, 'ts': {'kind': 'const', 'v': r.choice([0.5, 0.5, 1.0, 1.0, 1.5, 2.0, 0.25])},
@@ -261,6 +266,10 @@ def perm_ok(data):
 
 
 def run(spec):
+    if spec['class'] == 'structural':
+        from vmon.checks import c10
+        from vmon.util import harvest
+        return harvest(c10.run(spec['c10']), ('layer_same_snapshot', 'no_exception'), ['structural'])
     V = Viol()
     if spec['class'] == 'grammar':
         stats, nt, classes = run_grammar(spec, V)
